@@ -15,6 +15,15 @@ class OpaqueColl:
     def pyvc_str(self):
         return SymStr(cur().fresh("collstr", z3.StringSort()))
 
+    def pyvc_len(self):
+        """number of distinct elements"""
+        total = 0
+        items = self.items
+        for i, x in enumerate(items):
+            dup = [to_term(x) == to_term(y) for y in items[:i]]
+            total = total + (wrap(z3.If(z3.Or(*dup), z3.IntVal(0), z3.IntVal(1))) if dup else 1)
+        return total
+
 
 class MapView:
     symbolic_iter = True
